@@ -61,7 +61,7 @@ func (ssf *subStreamFormat) initialize2(firstTimeReceived bool, lastPTS time.Dur
 		// transfer parameters from inFormat to outFormat by writing them in the stream
 		switch inFormat := ssf.inFormat.(type) {
 		case *format.H265:
-			if inFormat.VPS != nil && inFormat.SPS != nil && inFormat.PPS != nil {
+			if len(inFormat.VPS) != 0 && len(inFormat.SPS) != 0 && len(inFormat.PPS) != 0 {
 				ssf.writeUnit(&unit.Unit{
 					PTS:        0,
 					NTP:        time.Time{},
@@ -71,7 +71,7 @@ func (ssf *subStreamFormat) initialize2(firstTimeReceived bool, lastPTS time.Dur
 			}
 
 		case *format.H264:
-			if inFormat.SPS != nil && inFormat.PPS != nil {
+			if len(inFormat.SPS) != 0 && len(inFormat.PPS) != 0 {
 				ssf.writeUnit(&unit.Unit{
 					PTS:        0,
 					NTP:        time.Time{},
